@@ -104,6 +104,9 @@ fn raw_literal(maxlen: usize) -> BoxedStrategy<String> {
         }),
         // text that looks like escape sequences
         2 => proptest::collection::vec(select(ESCAPE_LOOKALIKES.to_vec()), 1..=4).prop_map(|v| v.concat()),
+        // values wrapped in the delimiters of another term kind
+        1 => (proptest::collection::vec(lit_char(), 0..=4), select(vec![("<", ">"), ("\"", "\""), ("{|", "|}"), ("'", "'"), ("<", ">>")]))
+            .prop_map(|(v, (a, b))| format!("{a}{}{b}", v.into_iter().collect::<String>())),
     ]
     .boxed()
 }
@@ -302,7 +305,7 @@ impl Part for Datasets {
         "datasets"
     }
     fn cases(&self, tier: Tier) -> u32 {
-        tier.pick(3_000, 200_000)
+        tier.pick(20_000, 1_000_000)
     }
     fn strategy(&self, tier: Tier) -> BoxedStrategy<RtDataset> {
         dataset(tier)
@@ -560,7 +563,7 @@ fn main() {
         silence_engine_diagnostics();
     }
     let seed = s.seed;
-    s.run_enum(&Corpus, corpus_cases().into_iter(), true);
+    s.run_enum(&Corpus, corpus_cases().into_iter(), false);
     s.run(&Datasets);
     if tier == Tier::Thorough {
         let job = FuzzJob { runs: 2_000_000, seed: if seed == 0 { 1 } else { seed & 0x7fff_ffff } };
